@@ -983,7 +983,9 @@ func (s *State) evalForInteger(fe *ast.ForExpression, start *int64, end int64, n
 	}
 	for i := startValue; i < endValue; i++ {
 		if ptr == nil && name != "" {
-			s.env.Set(name, object.Integer{Value: int64(i)})
+			if oerr := s.env.Set(name, object.Integer{Value: int64(i)}); oerr.Type() == object.ERROR {
+				return oerr // constant or built-in name as loop variable.
+			}
 		}
 		if ptr != nil {
 			*ptr = int64(i)
@@ -1066,7 +1068,9 @@ func (s *State) evalForList(fe *ast.ForExpression, list object.Object, name stri
 		if v == nil {
 			return s.NewError("for list element is nil")
 		}
-		s.env.Set(name, v)
+		if oerr := s.env.Set(name, v); oerr.Type() == object.ERROR {
+			return oerr // constant or built-in name as loop variable.
+		}
 		// Copy pasta from evalForInteger. hard to share control flow.
 		nextEval := s.evalInternal(fe.Body)
 		switch nextEval.Type() {
